@@ -154,8 +154,9 @@ func (ps *protoSpec) be32(o protoOutcome, v sVal) (*pt, bool) {
 // ---------- verification ----------
 
 // specVerify: eWant is the digest term (parameter e for VerifyHashed)
-func (ps *protoSpec) specVerify(eWant *pt, pubx, puby, r, s *pt) {
+func (ps *protoSpec) specVerify(eWant0 *pt, pubx, puby, r, s *pt) {
 	for _, o := range ps.outs {
+		eWant := ps.dropEmpty(o, eWant0)
 		if o.restart || len(o.vals) != 2 {
 			continue
 		}
@@ -176,6 +177,14 @@ func (ps *protoSpec) specVerify(eWant *pt, pubx, puby, r, s *pt) {
 		if isC && c.raw == "bytes" && c.a != nil && c.b != nil && c.a.op == "be" && c.b.op == "be" && c.a.k == c.b.k {
 			// equality of two fixed-width encodings of the same width is equality of the encoded values
 			c = pCond{a: c.a.args[0], b: c.b.args[0], op: c.op, neg: c.neg}
+		}
+		if isC && c.raw == "bytes" && c.a != nil && c.b != nil {
+			// ... and so is equality of a fixed-width encoding with a byte string of that length (bytes.Equal(fixed32(R), r))
+			if c.a.op == "be" && c.b.op != "be" && ps.d.lenOf(o.st, c.b) == c.a.k {
+				c = pCond{a: c.a.args[0], b: pVal(c.b), op: c.op, neg: c.neg}
+			} else if c.b.op == "be" && c.a.op != "be" && ps.d.lenOf(o.st, c.a) == c.b.k {
+				c = pCond{a: pVal(c.a), b: c.b.args[0], op: c.op, neg: c.neg}
+			}
 		}
 		if !isC || c.a == nil || c.raw != "" {
 			ps.need("VERIFY-VERDICT", false, "the verdict of an accepting path is not an integer comparison (%s)", ps.d.show(o.st, o.vals[0]))
@@ -251,9 +260,10 @@ func lastDraw(o protoOutcome) *pt {
 	return &pt{op: "draw", s: fmt.Sprintf("draw#%d", o.st.draws), k: o.st.drawLens[len(o.st.drawLens)-1]}
 }
 
-func (ps *protoSpec) specSign(eWant, priv *pt) {
+func (ps *protoSpec) specSign(eWant0, priv *pt) {
 	d := pVal(priv)
 	for _, o := range ps.outs {
+		eWant := ps.dropEmpty(o, eWant0)
 		if o.restart {
 			ok := o.st.draws >= 1
 			for _, l := range o.st.drawLens {
@@ -600,7 +610,12 @@ func (ps *protoSpec) specZA(id, pubx, puby *pt) {
 		if ok {
 			t = ps.d.normInt(o.st, t)
 		}
-		ps.need("ZA-HASH-INPUT", ok && sameBytes(t, zaTerm(id, pubx, puby)), "ZA is %s; required: SM3(ENTL(2 bytes, 8*len(id)) || id || a || b || Gx || Gy || xA || yA)", ps.d.show(o.st, o.vals[0]))
+		want := zaTerm(id, pubx, puby)
+		if ps.d.lenOf(o.st, id) == 0 {
+			// on a path that has fixed the identifier to the empty string the concatenation has no term for it
+			want = pOp("sm3", pOp("cat", pBe(pMul(pC(8), pOp("len", id)), 2), pParam("zBytes"), pubx, puby))
+		}
+		ps.need("ZA-HASH-INPUT", ok && (sameBytes(t, want) || sameBytes(t, ps.d.normInt(o.st, want))), "ZA is %s; required: SM3(ENTL(2 bytes, 8*len(id)) || id || a || b || Gx || Gy || xA || yA)", ps.d.show(o.st, o.vals[0]))
 	}
 	ps.flush(map[string]string{
 		"ZA-REFUSAL":    "an error (with a nil result) is returned exactly when 8*len(id) does not fit 16 bits",
@@ -882,4 +897,31 @@ func maxInt(a, b int) int {
 		return a
 	}
 	return b
+}
+
+// dropEmpty: the required term as the outcome sees it - a parameter string that the path has fixed to length 0 (the
+// identifier, after a per-length split) contributes nothing to a concatenation
+func (ps *protoSpec) dropEmpty(o protoOutcome, t *pt) *pt {
+	if t == nil || len(t.args) == 0 {
+		return t
+	}
+	changed := false
+	var args []*pt
+	for _, a := range t.args {
+		if t.op == "cat" && a.op == "param" && ps.d.lenOf(o.st, a) == 0 {
+			changed = true
+			continue
+		}
+		b := ps.dropEmpty(o, a)
+		if b != a {
+			changed = true
+		}
+		args = append(args, b)
+	}
+	if !changed {
+		return t
+	}
+	c := *t
+	c.args = args
+	return &c
 }
